@@ -648,7 +648,10 @@ func (c *concRun) runClient(ci int, ops []Op) {
 		case "sx":
 			c.cSharedSession(ci, repo, op)
 		case "sleep":
-			simrt.Sleep(time.Duration(op.Ms) * time.Millisecond)
+			// (A: microseconds on top, may be negative: to meet a timer that was set some requests ago)
+			if d := time.Duration(op.Ms)*time.Millisecond + time.Duration(op.A)*time.Microsecond; d > 0 {
+				simrt.Sleep(d)
+			}
 		case "aligntick":
 			// wake up at the very instant the collection ticker fires: who runs first is the scheduler's choice
 			if f := w.k.freq(); f > 0 {
@@ -1268,6 +1271,11 @@ func planC12(prop string, seed uint64, tier string, idx int) *Plan {
 				}
 				op.S = g.r.str("", "", "", "cancel", "abandon")
 				ops = append(ops, op)
+				if op.S == "abandon" && grace > 0 && g.r.chance(60) {
+					// the next upload to the repository starts at the very moment the abandoned session expires
+					ops = append(ops, Op{K: "sleep", Ms: grace, A: g.r.pick(-40, -30, -25, -20, -15, -10, -5, 0)},
+						Op{K: "blob", Repo: repo, Obj: cg.blobs[g.r.intn(len(cg.blobs))], Chunks: []int{g.r.between(1, 100)}, S: g.r.str("", "abandon")})
+				}
 			case 5:
 				ops = append(ops, Op{K: "cancelget", Repo: repo, Ms: int64(g.r.pick(1, 5, 20, 100, 1000))})
 			case 6:
